@@ -1018,6 +1018,7 @@ class PyCdlib:
         parent_links = []
         child_links = []
         lastbyte = 0
+        seen_dir_extents = {root_dir_record.extent_location()}
         dirs = collections.deque([root_dir_record])
         while dirs:
             dir_record = dirs.popleft()
@@ -1142,6 +1143,9 @@ class PyCdlib:
                         # record in the parent_links list for later linking.
                         parent_links.append(new_record)
                     if not dots and not rr_cl:
+                        if new_extent_loc in seen_dir_extents:
+                            raise pycdlibexception.PyCdlibInvalidISO('More than one directory record points at the directory at extent %d' % (new_extent_loc))
+                        seen_dir_extents.add(new_extent_loc)
                         dirs.append(new_record)
                         new_record.set_ptr(extent_to_ptr[new_extent_loc])
 
@@ -2076,6 +2080,7 @@ class PyCdlib:
                                                 self.udf_file_set.root_dir_icb.log_block_num,
                                                 None)
 
+        seen_dir_extents = {abs_file_entry_extent}
         udf_file_entries = collections.deque([self.udf_root])
         while udf_file_entries:
             udf_file_entry = udf_file_entries.popleft()
@@ -2129,6 +2134,9 @@ class PyCdlib:
                     next_entry.file_ident = file_ident
 
                     if file_ident.is_dir():
+                        if abs_file_entry_extent in seen_dir_extents:
+                            raise pycdlibexception.PyCdlibInvalidISO('More than one UDF File Identifier points at the directory at extent %d' % (abs_file_entry_extent))
+                        seen_dir_extents.add(abs_file_entry_extent)
                         udf_file_entries.append(next_entry)
                     else:
                         if next_entry.get_data_length() > 0:
